@@ -163,6 +163,14 @@ def mutate_one_field(rng, coll: Obj, g: G):
             a[:] = [(k, v) for k, v in a if k != "revision"] + [("revision", "99999")]
             return c, "revision of one article"
         old = [v for k, v in a if k == "title"]
+        if old and isinstance(old[-1], str) and old[-1] and rng.random() < 0.5:
+            # the smallest possible difference: one character more, less or other - a blank included
+            t0 = old[-1]
+            i = rng.randrange(len(t0) + 1)
+            new = rng.choice([t0[:i] + " " + t0[i:], t0[:i] + "x" + t0[i:], t0.replace(" ", "", 1) if " " in t0 else t0 + " ", t0.swapcase() if t0.swapcase() != t0 else t0 + "x"])
+            if new != t0:
+                a[:] = [(k, v) for k, v in a if k != "title"] + [("title", new)]
+                return c, f"title of one article ({t0!r} vs {new!r})"
         new = rng.choice([t for t in g.titles if not old or t != old[-1]])
         a[:] = [(k, v) for k, v in a if k != "title"] + [("title", new)]
         return c, "title of one article"
